@@ -44,7 +44,17 @@ def _Stdin(data):
     return open(fd, "r", encoding="utf-8", newline=None)
 
 
-def run_main(argv, cwd=None, stdin_bytes=None, entry="bandit.cli.main"):
+def _BrokenStdin():
+    """standard input that cannot be read: a descriptor opened for writing only (reads fail with EBADF)"""
+    import tempfile
+    f = tempfile.NamedTemporaryFile(delete=False)
+    f.close()
+    fd = os.open(f.name, os.O_WRONLY)
+    os.unlink(f.name)
+    return open(fd, "w", encoding="utf-8")
+
+
+def run_main(argv, cwd=None, stdin_bytes=None, entry="bandit.cli.main", stdin_broken=False):
     import importlib
     mod = importlib.import_module(entry)
     out, err = _Capture(), _Capture()
@@ -59,7 +69,10 @@ def run_main(argv, cwd=None, stdin_bytes=None, entry="bandit.cli.main"):
     try:
         if cwd:
             os.chdir(cwd)
-        if stdin_bytes is not None:
+        if stdin_broken:
+            st = _BrokenStdin()
+            sys.stdin = st
+        elif stdin_bytes is not None:
             st = _Stdin(stdin_bytes)
             sys.stdin = st
         with contextlib.redirect_stdout(out), contextlib.redirect_stderr(err):
